@@ -183,20 +183,29 @@ func (d *rpcDriver) gated(st *Step, call func(), due func() bool) {
 		pre = nil
 	}
 	long := time.After(30 * time.Second)
+	handle := func() {
+		applyPre()
+		g.release <- struct{}{}
+		select {
+		case <-g.finished:
+		case <-long:
+			panic("csv callback did not return")
+		}
+		cbs++
+	}
 	for {
 		if returned && (cbs > 0 || !due()) {
+			select { // a callback that announced itself meanwhile is not left behind
+			case <-g.arrived:
+				handle()
+				continue
+			default:
+			}
 			break
 		}
 		select {
 		case <-g.arrived:
-			applyPre()
-			g.release <- struct{}{}
-			select {
-			case <-g.finished:
-			case <-long:
-				panic("csv callback did not return")
-			}
-			cbs++
+			handle()
 		case <-ret:
 			returned = true
 			ret = nil
